@@ -39,6 +39,8 @@ def run(ctx, repo):
     ctx.call(R6B.r_deep_iff_setstate, repo)
     ctx.call(R6B.r_reduce_exact_type, repo)
     ctx.call(RX.r_getattr_chain, repo)
+    ctx.call(R6B.r_state_keys_safe_only, repo)
+    ctx.call(R6B.r_apply_state_if_present, repo)
 
 
 if __name__ == '__main__':
